@@ -627,6 +627,18 @@ theorem associative_row_lossless (cols : List String) (cells : List (Bool × Sql
   cases h1
   exact h2
 
+/-! ### the encoder's result is a value -/
+
+/-- In the model an encoded result is a VALUE: what a batch of values encodes to is, position by
+position, what each of them encodes to on its own - whatever is encoded before or after it. The real
+encoder returns a byte slice; that the slice is not memory the encoder goes on to reuse (so that a
+response body cannot be overwritten by the next response encoded anywhere in the process) is what
+the run checks by holding EVERY marshalled result while the others are marshalled - sequentially,
+from 8 goroutines, and through the HTTP service with 8 concurrent clients. -/
+theorem encoded_results_are_values (ba : Bool) (before after : List Param) (p : Param) :
+    ((before ++ p :: after).map (encode ba))[before.length]? = some (encode ba p) := by
+  simp
+
 /-! ### the whole way: JSON parameter in, JSON value out -/
 
 /-- `makeParameter` never produces an infinite REAL (a literal that large is rejected) -/
